@@ -142,6 +142,8 @@ class C10(Prop):
                     names.append(sc.split("=", 1)[0])
                     if sc.split("=", 1)[0] == COOKIE:
                         attrs = [a.strip().lower() for a in sc.split(";")[1:]]
+                        if o.get("expires_in_ms") is not None and abs(o["expires_in_ms"] - 3600000) > 1600:
+                            res.append(("session-cookie-lifetime", "a session cookie issued with %d ms to live; the configured lifetime is 3600000 ms (counted from the moment it is issued)" % o["expires_in_ms"], rp))
                         if "httponly" not in attrs or "path=/" not in attrs or (("secure" in attrs) == h["disable_ssl"]) or not any(a.startswith("expires=") for a in attrs):
                             res.append(("session-cookie-attributes", "session cookie issued as %r (test override %s)" % (sc, h["disable_ssl"]), rp))
                 if any(n != COOKIE for n in names):
